@@ -1309,11 +1309,11 @@ class Reaction(Object):
                 # Reset them with add_metabolites
                 # A metabolite that was not part of the reaction before is reset
                 # to a coefficient of zero, which removes it again.
+                # (looked up by identifier: a key may be a string or a metabolite
+                # object other than the reaction's own)
+                old_by_id = {met.id: value for met, value in old_coefficients.items()}
                 mets_to_reset = {
-                    key: old_coefficients.get(
-                        model.metabolites.get_by_any(key)[0], 0
-                    )
-                    for key in metabolites_to_add.keys()
+                    key: old_by_id.get(str(key), 0) for key in metabolites_to_add.keys()
                 }
 
                 context(
